@@ -529,7 +529,7 @@ def c19(pid, tier, work, replay):
     if tier != "quick":
         runs.append(("c19-table-badger", ["uritable", "badger", "@WORK/b19b", "@TRACE", "@STATUS"]))
     nt, nops = sized(tier, (12, 40), (200, 60))
-    extra = pool_jobs("c19p", "C19", s, nt, nops, work, weights=dict(reconnect=30, host=10, update=10, peer=10, sleep=5, close=5, reopen=8))
+    extra = pool_jobs("c19p", "C19", s, nt, nops, work, cfg=dict(nat=True), weights=dict(reconnect=30, host=10, update=10, peer=10, sleep=5, close=5, reopen=8))
     return table_check(
         pid, tier, work, "VipNodeURI", "VipNodeURI.cfg", runs,
         "complete table: override absent/present x scheme {enode,http,none} x user {none,empty,own,other,own:password} x host "
@@ -774,7 +774,7 @@ def c18(pid, tier, work, replay):
     return event_check(
         pid, tier, work, "VipAgentTrace", "VipAgentTrace.cfg", [], runs,
         "complete table over two peer slots: local address class {absent, A, B, loopback} x pool-active class {absent, A, B, loopback, "
-        "unspecified, no address} x declared invalid {no, as id, as enode URI}, squared, x strict peering on/off = 10368 rounds on a light geth "
+        "unspecified, no address} x declared invalid {no, as id, as enode URI}, squared, x strict peering on/off = 10368 cases, each run twice (pool reply changing / local peers changing from round to round) on a light geth "
         "node (a third of them again on a full node and a light parity node), with targets 0/1/3/5 and pool outcomes (ok, update fails, peer request "
         "fails with no-hosts / internal / other error, no peers returned) cycled through; all rounds of one configuration are consecutive keep-alive "
         "rounds of ONE Agent (multi-round histories); compared: the multiset of node calls and the pool calls with arguments; plus the complete "
